@@ -184,6 +184,7 @@ type rendered struct {
 	ksGroups *named
 	points   *named
 	pskModes *named
+	padding  string
 	certAlgs *named
 	extNames named
 }
@@ -275,8 +276,19 @@ func renderJSON(w *whello, variant int) (*rendered, error) {
 				}
 			}
 		case 21:
-			if variant%2 == 0 {
-				o["len"] = 0
+			// "len": 0 (or no member) asks for the BoringSSL heuristic; that describes this hello only if the heuristic,
+			// applied to the unpadded length, gives exactly the padding seen. Any other padding is an explicit length.
+			unpadded := len(w.rebuild()) - 4 - len(e.data)
+			if bl, will := tls.BoringPaddingStyle(unpadded); will && bl == len(e.data) && variant%3 != 2 {
+				if variant%2 == 0 {
+					o["len"] = 0
+				}
+				r.padding = "boring"
+			} else if len(e.data) == 0 {
+				return nil, fmt.Errorf("%w: empty padding extension that the BoringSSL heuristic would not produce", errNotDescribable)
+			} else {
+				o["len"] = len(e.data)
+				r.padding = fmt.Sprintf("explicit-%d/unpadded-%d", len(e.data), unpadded)
 			}
 		case 24:
 			if len(e.data) < 3 || int(e.data[2]) != len(e.data)-3 {
@@ -528,6 +540,15 @@ func noteNames(table string, n *named) {
 	}
 }
 
+func paddingBody(w *whello) []byte {
+	for _, e := range w.exts {
+		if e.id == 21 {
+			return e.data
+		}
+	}
+	return nil
+}
+
 // ---------- building hellos ----------
 
 type detRand struct{ src *mrand.Rand }
@@ -593,6 +614,21 @@ func compareImports(c *vh.Ctx, label string, raw []byte, toCoq bool, variant int
 		return
 	}
 	c.Count("hellos-through-both-importers")
+	if rj.padding != "" {
+		k := "padding-boring"
+		if rj.padding != "boring" {
+			k = "padding-explicit-len"
+			switch u := len(raw) - 4 - len(paddingBody(w0)); {
+			case u < 256:
+				k += "/unpadded<256"
+			case u < 512:
+				k += "/unpadded-256..511"
+			default:
+				k += "/unpadded>=512"
+			}
+		}
+		c.Count(k)
+	}
 	noteNames("CipherSuite", &rj.suites)
 	noteNames("CompMeth", &rj.comp)
 	noteNames("SupportedGroups", rj.groups)
